@@ -239,14 +239,15 @@ Definition transport_status (t : transport) : Z :=
 
 (* the response of ServeHTTP as the model predicts it: status (200 = next was
    called; the harness' Next handler answers 200), the id given to next, the header *)
-Definition http_response (c : case3) (r : sres) : Z * Z * ohdr :=
-  let ts := transport_status (c3_tr c) in
+Definition http_response (tr : transport) (sv : server) (host : N) (now : Z) (fresh : N)
+           (r : sres) : Z * Z * ohdr :=
+  let ts := transport_status tr in
   if negb (ts =? 0) then (ts, -1, [])
   else match r with
        | SOk _ (Some p) out => (200, Z.of_N p, out)
        | SOk _ None out => (401, -1, out)
        | SErr EInvalidHMAC | SErr EExpiredChallenge | SErr EExpiredToken =>
-           match run_challenge_client (c3_sv c) (c3_host c) (c3_now c) (c3_fresh c) with
+           match run_challenge_client sv host now fresh with
            | SOk _ _ out => (401, -1, out)
            | SErr _ => (401, -1, [])
            end
@@ -268,7 +269,7 @@ Definition conform3 (c : case3) : list Z :=
             else []
         end
       else
-        let '(st, pid, out) := http_response c r in
+        let '(st, pid, out) := http_response (c3_tr c) (c3_sv c) (c3_host c) (c3_now c) (c3_fresh c) r in
         if negb (st =? c3_o1 c) then mism 35 [st; c3_o1 c]
         else if negb (pid =? c3_pid c) then mism 36 [pid; c3_pid c]
         else if negb (ohdr_eqb out (c3_out c)) then mism 37 [zlen out; zlen (c3_out c)]
@@ -400,26 +401,24 @@ Definition emitted_challenges (out : ohdr) : list term :=
 Definition server_proof (ckey host : N) (own : list term) (p : N) (sg : term) : bool :=
   existsb (fun ch => sym_verify (TPub p) (msg_server ch (TPub ckey) (atom host)) sg) own.
 
-(* proofs seen so far: pairs (own challenges at the time, values received) are
-   folded into the list of ids proven *)
 Definition proves (ckey host : N) (own : list term) (vals : list term) (p : N) : bool :=
   existsb (server_proof ckey host own p) vals.
 
-(* monitor state: own challenges, and every (own, received values) snapshot *)
-Fixpoint monitor_client (ckey host : N) (own : list term) (seen : list (list term * list term))
-         (i : Z) (steps : list cstep) : list Z :=
+(* monitor state: the client's own challenges so far and every value received
+   so far.  Whenever the client reports an id, one of the received values must
+   be a signature under that id's key over one of the client's own challenges,
+   the client's public key and the hostname. *)
+Fixpoint monitor_client (ckey host : N) (own vals : list term) (i : Z) (steps : list cstep) : list Z :=
   match steps with
   | [] => []
   | s :: r =>
-      let seen' :=
-        if cs_op s =? 1 then (own, carried (cs_tbl s) (cs_www s) ++ carried (cs_tbl s) (cs_info s)) :: seen
-        else seen in
+      let vals' :=
+        if cs_op s =? 1 then carried (cs_tbl s) (cs_www s) ++ carried (cs_tbl s) (cs_info s) ++ vals
+        else vals in
       let own' := emitted_challenges (cs_out s) ++ own in
       let ok :=
-        if 0 <=? cs_pid s then
-          existsb (fun sn => proves ckey host (fst sn) (snd sn) (Z.to_N (cs_pid s))) seen'
-        else true in
-      if ok then monitor_client ckey host own' seen' (i + 1) r
+        if 0 <=? cs_pid s then proves ckey host own' vals' (Z.to_N (cs_pid s)) else true in
+      if ok then monitor_client ckey host own' vals' (i + 1) r
       else viol 4 [i; cs_pid s]
   end.
 
